@@ -581,6 +581,18 @@ func genC01(b *builder) {
 	}
 }
 
+// segment: now and then a TCP reply leaves the controller in two or three segments.
+func (b *builder) segment(st *engine.Step) {
+	r := b.r
+	for i := range st.Plan.Emits {
+		e := &st.Plan.Emits[i]
+		if e.Via == "tcp" && len(e.Data) == 64 && r.Intn(8) == 0 {
+			e.Split = pick(r, []int{8}, []int{4}, []int{32}, []int{63}, []int{1}, []int{20, 20}, []int{7, 1}, []int{56})
+			e.Gap = pick(r, 0, 0, time.Microsecond, time.Millisecond)
+		}
+	}
+}
+
 // ---- C02: replies -------------------------------------------------------------------------------
 
 func genC02(b *builder) {
@@ -607,6 +619,7 @@ func genC02(b *builder) {
 			o.V19 = true
 		}
 		st := b.callStep(client, op, a, known, b.early(T), o)
+		b.segment(&st)
 		if z != nil && !o.OOD && r.Intn(2) == 0 {
 			for i := range st.Plan.Emits {
 				d := st.Plan.Emits[i].Data
@@ -696,6 +709,7 @@ func genC03(b *builder) {
 				}
 				st.Plan.Emits = append(st.Plan.Emits, e)
 			}
+			b.segment(&st)
 			tk.Steps = append(tk.Steps, st)
 		}
 		b.sc.Tasks = append(b.sc.Tasks, tk)
